@@ -18,7 +18,22 @@ package coins
 //@   trusted
 //@   ensures (result != nil) <==> (id == 0 || coinExists(c, id))
 //@   ensures result != nil ==> coinIDOf(result) == id
+//@   # the record's accessors return the module's views of that coin (definition of the views, C02)
+//@   ensures result != nil && id != 0 ==> coinVol(result) == coinVolume(c, id) && coinRes(result) == coinReserve(c, id) && coinMax(result) == coinMaxOf(c, id)
 //@   modifies coinsCache
+//@ ghost coinMaxOf(c *Coins, id types.CoinID) int
+//@ func (*Model).Volume
+//@   trusted
+//@   ensures result != nil && fresh(result) && result.val == coinVol(m)
+//@   modifies nothing
+//@ func (*Model).Reserve
+//@   trusted
+//@   ensures result != nil && fresh(result) && result.val == coinRes(m)
+//@   modifies nothing
+//@ func (*Model).MaxSupply
+//@   trusted
+//@   ensures result != nil && result.val == coinMax(m)
+//@   modifies nothing
 
 //@ # ---------------------------------------------------------------- volume and reserve mutators (C01, C02)
 //@ # coinModel(c, id): the record of a custom coin (nil: none). The lazily loading getter is an ASSUMED representation
@@ -79,6 +94,7 @@ package coins
 //@ func (*Coins).AddVolume
 //@   trusted
 //@   requires amount != nil
+//@   requires [C02] supply: id != 0 ==> coinVolume(c, id) + amount.val <= coinMaxOf(c, id)
 //@   ensures id != 0 ==> coinVolume(c, id) == old(coinVolume(c, id)) + old(amount.val) && ledgerVolume(c.bus.checker, id) == old(ledgerVolume(c.bus.checker, id)) + old(amount.val)
 //@   modifies coinVolume(c, id), ledgerVolume(c.bus.checker, id), coinsCache
 //@ func (*Coins).AddVolume #record
